@@ -188,7 +188,7 @@ def main(tier):
 
     # ---- A: replay ---------------------------------------------------------------------------------
     n_max = 0
-    for fails, n_eval, nm in core.pmap(replay_config, [(c, cs, core.SEED) for c, cs in by_cfg]):
+    for fails, n_eval, nm in core.pmap(replay_config, [(c, cs, core.SEED) for c, cs in by_cfg], crash_value=([], 0, 0)):
         chk.evaluations += n_eval
         chk.traces += n_eval
         n_max += nm
